@@ -27,7 +27,6 @@ package ggql
 //@   ensures[input-object] is(t, *Input) ==> res
 //@   ensures[enum] is(t, *Enum) ==> res
 //@   ensures[scalar] builtinScalarT(t) ==> res
-//@   ensures[scalar-bare] is(t, *Scalar) ==> res
 //@   ensures[object] is(t, *Object) ==> !res
 //@   ensures[interface] is(t, *Interface) ==> !res
 //@   ensures[union] is(t, *Union) ==> !res
@@ -48,7 +47,6 @@ package ggql
 //@   ensures[union] is(t, *Union) ==> res
 //@   ensures[enum] is(t, *Enum) ==> res
 //@   ensures[scalar] builtinScalarT(t) ==> res
-//@   ensures[scalar-bare] is(t, *Scalar) ==> res
 //@   ensures[input-object] is(t, *Input) ==> !res
 //@   ensures[schema] is(t, *Schema) ==> !res
 //@   ensures[nil] t == nil ==> !res
@@ -249,9 +247,6 @@ package ggql
 //@ -- tokenByte: the characters allowed in a GraphQL name, [_A-Za-z0-9]
 //@ spec tokenByte(c int) bool = (48 <= c && c <= 57) || (65 <= c && c <= 90) || c == 95 || (97 <= c && c <= 122)
 //@ spec digitByte(c int) bool = 48 <= c && c <= 57
-//@ -- trusted fact about the 256-byte constant charMap (parser.go): it holds 't' exactly at the token characters
-//@ -- (govc only knows the bytes of string literals of at most 16 bytes)
-//@ axiom charMapTokens(c int): 0 <= c && c < 256 ==> (charMap[c] == 116 <==> tokenByte(c))
 //@ -- tokPrefix(name, n): the first n bytes of name are token characters
 //@ spec tokPrefix(name string, n int) bool
 //@ autoaxiom tokPrefixDef(name string, n int) {tokPrefix(name, n)}: tokPrefix(name, n) <==> (forall i int {name[i]} :: 0 <= i && i < n ==> tokenByte(name[i]))
@@ -270,7 +265,6 @@ package ggql
 //@   assigns fresh
 //@   loop 0: invariant[pos] 0 <= strpos(0)
 //@           invariant[tokens-so-far] tokPrefix(name, strpos(0))
-//@           use charMapTokens(b)
 
 //@ interface Type.Core
 //@   pure
@@ -315,13 +309,13 @@ package ggql
 //@ spec badFieldUpTo(fs []*FieldDef, n int) bool = exists i int {fs[i]} :: 0 <= i && i < n && badFieldDef(fs[i])
 //@ -- the elements of a name-indexed list are pairwise distinct (add refuses a second element with the same name)
 //@ spec distinctFields(fs []*FieldDef) bool = forall i int, j int {fs[i], fs[j]} :: 0 <= i && i < j && j < len(fs) ==> fs[i] != fs[j]
-//@ spec fieldsOk(fs []*FieldDef) bool = distinctFields(fs) && (forall i int {fs[i]} :: 0 <= i && i < len(fs) ==> fs[i] != nil)
+//@ spec fieldDefsOk(fs []*FieldDef) bool = distinctFields(fs) && (forall i int {fs[i]} :: 0 <= i && i < len(fs) ==> fs[i] != nil)
 
 //@ func (*Base).validateFieldDefs
 //@   props C13
 //@   check panic {C03}
 //@   requires b != nil && fields != nil
-//@   requires fieldsOk(fields.list)
+//@   requires fieldDefsOk(fields.list)
 //@   ensures[no-fields] len(fields.list) == 0 ==> len(errs) > 0
 //@   ensures[bad-field] badFieldUpTo(fields.list, len(fields.list)) ==> len(errs) > 0
 //@   ensures[accepts] len(fields.list) > 0 && !badFieldUpTo(fields.list, len(fields.list)) ==> len(errs) == 0
@@ -337,7 +331,7 @@ package ggql
 //@   props C13
 //@   check panic {C03}
 //@   requires t != nil
-//@   requires fieldsOk(t.fields.list)
+//@   requires fieldDefsOk(t.fields.list)
 //@   ensures[no-fields] len(t.fields.list) == 0 ==> len(errs) > 0
 //@   ensures[bad-field] badFieldUpTo(t.fields.list, len(t.fields.list)) ==> len(errs) > 0
 //@   ensures[accepts] len(t.fields.list) > 0 && !badFieldUpTo(t.fields.list, len(t.fields.list)) ==> len(errs) == 0
